@@ -179,7 +179,8 @@ Record linv (ds : list dep) (mk : bool) (code : Z) (r : jst) : Prop := {
   l_held : held r <> [] -> pc r = PWoken ALockIn \/ pc r = PExt ALockOutAbort \/ pc r = PWoken ALockOutAbort \/ in_run (pc r) = true;
   l_WR : pc r = PWokenReady -> ev r = true;
   l_RS : st r = READY -> started (pc r) = true;
-  l_WS : pc r = PWokenReady -> st r = READY \/ st r = ERROR
+  l_WS : pc r = PWokenReady -> st r = READY \/ st r = ERROR;
+  l_RT : forall v, pc r = PReturned v -> st r = v
 }.
 
 Lemma linv_jst0 : forall ds mk code, linv ds mk code jst0.
@@ -253,6 +254,9 @@ Proof.
     + destruct (l_EV L P0) as (_ & W0 & _).
       destruct As as [Y|[(_&Y&_)|(_&Y&_)]]; auto.
       destruct Aes as [Z|[Z|Z]]; auto. congruence.
+  - intros v P. destruct PC as [E|(_&E&_)]; [|congruence]. rewrite E in P.
+    pose proof (l_RT L P) as X. assert (F : finished (st r) = true) by (apply (l_A L); rewrite P; auto).
+    rewrite (FIN F). exact X.
 Qed.
 
 (* ------------------------------------------------------------------ the coroutine's own steps (job-local part) *)
@@ -590,7 +594,7 @@ Qed.
 (* a change of program counter that keeps the class of the job *)
 Lemma linv_deliver : forall ds mk code r a, linv ds mk code r -> pc r = PExt a -> linv ds mk code (w_pc r (PWoken a)).
 Proof.
-  intros ds mk code r a [A D EV CI L1 RUN L2 L0 MK E EN UN F H WR RS WS] P.
+  intros ds mk code r a [A D EV CI L1 RUN L2 L0 MK E EN UN F H WR RS WS RT] P.
   constructor; simpl; auto; try discriminate; rewrite P in *; simpl in *;
     try (destruct a; simpl in *; auto; fail).
   - intros X. destruct (EN X) as [Y|Y]; [discriminate|]. right. destruct a; auto.
@@ -601,26 +605,26 @@ Ltac pcc := intros; try (intuition (try discriminate; try congruence; auto); fai
 
 Lemma linv_lockoutrun : forall ds mk code r, linv ds mk code r -> pc r = PWoken ALockOutRun -> linv ds mk code (w_pc r (PExt AProc)).
 Proof.
-  intros ds mk code r [A D EV CI L1 RUN L2 L0 MK E EN UN F H WR RS WS] P.
+  intros ds mk code r [A D EV CI L1 RUN L2 L0 MK E EN UN F H WR RS WS RT] P.
   constructor; simpl; rewrite P in *; simpl in *; pcc.
 Qed.
 
 Lemma linv_returned : forall ds mk code r, linv ds mk code r -> pc r = PWoken ADoneH -> linv ds mk code (w_pc r (PReturned (st r))).
 Proof.
-  intros ds mk code r [A D EV CI L1 RUN L2 L0 MK E EN UN F H WR RS WS] P.
+  intros ds mk code r [A D EV CI L1 RUN L2 L0 MK E EN UN F H WR RS WS RT] P.
   constructor; simpl; rewrite P in *; simpl in *; pcc.
 Qed.
 
 Lemma linv_spawned : forall ds mk code r, linv ds mk code r -> pc r = PNot -> linv ds mk code (w_pc r PSpawned).
 Proof.
-  intros ds mk code r [A D EV CI L1 RUN L2 L0 MK E EN UN F H WR RS WS] P.
+  intros ds mk code r [A D EV CI L1 RUN L2 L0 MK E EN UN F H WR RS WS RT] P.
   assert (U := UN). rewrite P in U. simpl in U. destruct (U eq_refl) as (U1&U2&U3&U4&U5&U6).
   constructor; simpl; auto; try discriminate; try congruence; try lia;
     try (intros X; rewrite U5 in X; destruct X as [i X]; destruct i; discriminate).
 Qed.
 Lemma linv_dup : forall ds mk code r k, linv ds mk code r -> pc r = PNot -> linv ds mk code (w_pc r (PDup k)).
 Proof.
-  intros ds mk code r k [A D EV CI L1 RUN L2 L0 MK E EN UN F H WR RS WS] P.
+  intros ds mk code r k [A D EV CI L1 RUN L2 L0 MK E EN UN F H WR RS WS RT] P.
   assert (U := UN). rewrite P in U. simpl in U. destruct (U eq_refl) as (U1&U2&U3&U4&U5&U6).
   constructor; simpl; auto; try discriminate; try congruence; try lia;
     try (intros X; rewrite U5 in X; destruct X as [i X]; destruct i; discriminate).
@@ -650,13 +654,13 @@ Lemma linv_launch : forall ds mk code r hd, linv ds mk code r -> pc r = PWoken A
   linv ds mk code (w_pc (w_st (w_launches (w_held r hd) (S (launches (w_held r hd)))) RUNNING) (PExt ALockOutRun)).
 Proof.
   intros ds mk code r hd L P. destruct (lockin_facts L P) as (L0 & MK & NE & ND & NF).
-  destruct L as [A D EV CI L1 RUN L2 L0' MK' E EN UN F H WR RS WS].
+  destruct L as [A D EV CI L1 RUN L2 L0' MK' E EN UN F H WR RS WS RT].
   constructor; simpl; rewrite P in *; simpl in *; rewrite ?L0; pcc.
 Qed.
 
 Lemma linv_held : forall ds mk code r hd, linv ds mk code r -> pc r = PWoken ALockIn -> linv ds mk code (w_held r hd).
 Proof.
-  intros ds mk code r hd [A D EV CI L1 RUN L2 L0' MK' E EN UN F H WR RS WS] P.
+  intros ds mk code r hd [A D EV CI L1 RUN L2 L0' MK' E EN UN F H WR RS WS RT] P.
   constructor; simpl; rewrite P in *; simpl in *; pcc.
 Qed.
 
@@ -664,13 +668,13 @@ Lemma linv_toabort : forall ds mk code r, linv ds mk code r -> pc r = PWoken ALo
   linv ds mk code (w_pc r (PExt ALockOutAbort)).
 Proof.
   intros ds mk code r L P. destruct (lockin_facts L P) as (L0 & MK & NE & ND & NF).
-  destruct L as [A D EV CI L1 RUN L2 L0' MK' E EN UN F H WR RS WS].
+  destruct L as [A D EV CI L1 RUN L2 L0' MK' E EN UN F H WR RS WS RT].
   constructor; simpl; rewrite P in *; simpl in *; rewrite ?L0; pcc.
 Qed.
 
 Lemma linv_release : forall ds mk code r, linv ds mk code r -> started (pc r) = true -> linv ds mk code (w_held r []).
 Proof.
-  intros ds mk code r [A D EV CI L1 RUN L2 L0' MK' E EN UN F H WR RS WS] S.
+  intros ds mk code r [A D EV CI L1 RUN L2 L0' MK' E EN UN F H WR RS WS RT] S.
   constructor; simpl; pcc.
 Qed.
 
@@ -737,13 +741,39 @@ Proof.
       rewrite E. set (c := ((S a <=? j)%nat && (j <? S a + n)%nat)) in *. destruct (g a); simpl; lia.
 Qed.
 
-Lemma inv_update : forall W s s' j r',
+(* what no transition ever undoes; stab0: moreover nothing is launched *)
+Definition stab_gen (strict : bool) (s s' : state) : Prop :=
+  forall k,
+    (st (jobs s k) = DONE -> st (jobs s' k) = DONE) /\
+    (st (jobs s k) = ERROR -> st (jobs s' k) = ERROR) /\
+    (past_loop (pc (jobs s k)) = true -> past_loop (pc (jobs s' k)) = true) /\
+    (forall r0, pc (jobs s k) = PReturned r0 -> pc (jobs s' k) = PReturned r0) /\
+    (launches (jobs s' k) = launches (jobs s k) \/
+     (strict = false /\ launches (jobs s' k) = S (launches (jobs s k)) /\ pc (jobs s k) = PWoken ALockIn)).
+Definition stab := stab_gen false.
+Definition stab0 := stab_gen true.
+
+Lemma stab0_refl : forall s s', jobs s' = jobs s -> stab0 s s'.
+Proof. intros s s' E k. rewrite E. repeat split; auto. Qed.
+Lemma stab0_stab : forall s s', stab0 s s' -> stab s s'.
+Proof. intros s s' H k. destruct (H k) as (A & B & C & D & [E|(E & _)]); [|discriminate]. repeat split; auto. Qed.
+Lemma stab0_trans : forall s1 s2 s3, stab0 s1 s2 -> stab0 s2 s3 -> stab0 s1 s3.
+Proof.
+  intros s1 s2 s3 A B k. destruct (A k) as (A1 & A2 & A3 & A4 & [A5|(A5&_)]); [|discriminate].
+  destruct (B k) as (B1 & B2 & B3 & B4 & [B5|(B5&_)]); [|discriminate].
+  split; [auto|]. split; [auto|]. split; [auto|]. split; [intros r0 X; eauto|]. left. congruence.
+Qed.
+
+Lemma inv_update : forall strict W s s' j r',
   wf W = true -> Inv W s -> (j < njobs W)%nat ->
   jobs s' = upd (jobs s) j r' ->
   linv (deps W j) (j_marker (spec W j)) (j_code (spec W j)) r' ->
   (st (jobs s j) = DONE -> st r' = DONE) -> (st (jobs s j) = ERROR -> st r' = ERROR) ->
   (started (pc (jobs s j)) = true -> started (pc r') = true) ->
   (past_loop (pc (jobs s j)) = true -> past_loop (pc r') = true) ->
+  (forall r0, pc (jobs s j) = PReturned r0 -> pc r' = PReturned r0) ->
+  (launches r' = launches (jobs s j) \/
+   (strict = false /\ launches r' = S (launches (jobs s j)) /\ pc (jobs s j) = PWoken ALockIn)) ->
   (spawned (pc (jobs s j)) = true -> spawned (pc r') = true) ->
   (spawned (pc r') = true -> forall k, In (DJob k) (deps W j) -> spawned (pc (jobs s k)) = true) ->
   (forall i k, started (pc r') = true -> nth_error (cur r') i = Some DOK -> nth_error (deps W j) i = Some (DJob k) ->
@@ -757,9 +787,9 @@ Lemma inv_update : forall W s s' j r',
   (forall x, In x (failed s') <->
      In x (failed s) \/ (x = j /\ past_loop (pc r') = true /\ past_loop (pc (jobs s j)) = false /\ st r' <> DONE)) ->
   (forall c, In c (queue s') -> In c (queue s) \/ cb_ok s' c) ->
-  Inv W s'.
+  Inv W s' /\ stab_gen strict s s'.
 Proof.
-  intros W s s' j r' WF I Jn EJ L SD SE SS SP SW SUB CO CF RD FD LD CNT FL Q.
+  intros strict W s s' j r' WF I Jn EJ L SD SE SS SP RET LCH SW SUB CO CF RD FD LD CNT FL Q.
   set (r := jobs s j) in *.
   assert (SAME : forall x, x <> j -> jobs s' x = jobs s x).
   { intros x N. rewrite EJ. apply upd_other; auto. }
@@ -772,6 +802,7 @@ Proof.
   { intros k D. destruct (Nat.eq_dec k j) as [->|N]; [rewrite ATJ; auto|rewrite SAME; auto]. }
   assert (SPW : forall k, spawned (pc (jobs s k)) = true -> spawned (pc (jobs s' k)) = true).
   { intros k D. destruct (Nat.eq_dec k j) as [->|N]; [rewrite ATJ; auto|rewrite SAME; auto]. }
+  split; [|intros k; destruct (Nat.eq_dec k j) as [->|N]; [rewrite ATJ; repeat split; auto|rewrite SAME; repeat split; auto]].
   constructor.
   - intros x. unfold jl. destruct (Nat.eq_dec x j) as [->|N]; [rewrite ATJ; auto|rewrite SAME; auto; apply (I_loc I)].
   - intros x G. rewrite SAME; [apply (I_out I); auto|lia].
